@@ -32,7 +32,7 @@ def model_check(ctx):
         ctx.add(reachability_witnesses=1)
 
 def scenarios(ctx, shapes, rnd):
-    budget_ms = (9000 if ctx.quick else 150000)
+    budget_ms = (20000 if ctx.quick else 150000)
     scen = []; blocks = {}; keylens = {}
     fam_algs = {}
     for a, (B, L, fam) in ALGS.items(): fam_algs.setdefault(fam, []).append(a)
